@@ -34,7 +34,7 @@ package search
 //@
 //@ func (*Search).alphaBeta
 //@   props C06 C08
-//@   views search
+//@   views search pvframe
 //@   allow-extern fmt. time. os. strings. io.
 //@   requires searchInv(s) && len(b.hashes) >= 1
 //@   ensures [board]   bs(b) == old(bs(b)) && histKept(b)
@@ -43,14 +43,14 @@ package search
 //@   ensures [nodes]   nodesOK(opts)
 //@   modifies b.*, s.aborted, s.hstack.*, s.pv.*, s.ms.*, s.tt.data.*, s.ranker.history.*, s.ranker.captHist.*, s.ranker.continuations[0].*, s.ranker.continuations[1].*, opts.Counters.*
 //@   timeout 200
-//@   at-call Insert@3 requires !s.aborted
+//@   at-call Insert@1 requires !s.aborted
 //@   at-call FailHigh requires !s.aborted
 //@   loop 1: invariant bs(b) == old(bs(b)) && histKept(b) && s.hstack.sp == old(s.hstack.sp) && len(s.ms.frames) == old(len(s.ms.frames)) + 1 && implies(old(s.aborted), s.aborted) && nodesOK(opts)
 //@   loop 1: modifies b.*, s.aborted, s.hstack.*, s.pv.*, s.ms.allocIx, s.ms.data.*, s.tt.data.*, s.ranker.history.*, s.ranker.captHist.*, s.ranker.continuations[0].*, s.ranker.continuations[1].*, opts.Counters.*, pck.*
 //@
 //@ func (*Search).rankMovesQ
 //@   props C06
-//@   views search
+//@   views search pvframe
 //@   modifies moves.*
 //@   loop 1: invariant true
 //@   loop 1: modifies moves.*
@@ -64,7 +64,7 @@ package search
 //@
 //@ func (*Search).quiescence
 //@   props C06 C08
-//@   views search
+//@   views search pvframe
 //@   allow-extern fmt. time. os. strings. io.
 //@   requires searchInv(s) && len(b.hashes) >= 1
 //@   ensures [board]   bs(b) == old(bs(b)) && histKept(b)
@@ -81,7 +81,7 @@ package search
 //@
 //@ func (*Search).iterativeDeepen
 //@   props C06
-//@   views search
+//@   views search pvframe
 //@   allow-extern fmt. time. os. strings. io.
 //@   timeout 200
 //@   requires searchInv(s) && len(b.hashes) >= 1
@@ -94,3 +94,104 @@ package search
 //@   loop 2: modifies b.*, s.aborted, s.hstack.*, s.pv.*, s.ms.*, s.tt.data.*, s.ranker.history.*, s.ranker.captHist.*, s.ranker.continuations[0].*, s.ranker.continuations[1].*, opts.Counters.*, opts.PonderHit
 //@   loop 3: invariant bs(b) == old(bs(b)) && histKept(b) && s.hstack.sp == old(s.hstack.sp) && len(s.ms.frames) == old(len(s.ms.frames)) + 1
 //@   loop 3: modifies b.*
+//@
+//@ # ---- C07: principal variations.  Row `ply` of the triangular buffer starts at rowAt(ply) and holds
+//@ # ---- depth[ply] moves.  lineS is defined by recursion on the length (lineNil, lineCons); lineSeg
+//@ # ---- (a line depends only on the array segment it occupies) follows from them by induction on n.
+//@ axiom lineNil(s $BS, a $MvArr, off int)
+//@   concl lineNilOK(s, a, off)
+//@ axiom lineCons(s $BS, a $MvArr, off int, n int)
+//@   concl lineConsOK(s, a, off, n)
+//@ axiom lineSeg(s $BS, a $MvArr, i int, b $MvArr, j int, n int)
+//@   concl lineSegOK(s, a, i, b, j, n)
+//@
+//@ # gs: an arbitrary board state, [gof, gof+gn): an arbitrary segment of the buffer (schemas, see `instances`)
+//@ ghost gs $BS
+//@ ghost gof int
+//@ ghost gn int
+//@ define rowAt(ply) = int(ply)*64 - int(ply)*(int(ply)-1)/2
+//@ define keepsBelow(pv, bound) = implies(0 <= gof && 0 <= gn && gof <= bound && gn <= bound - gof, lineS(gs, arr(pv.moves), gof, gn) == lineS(gs, old(arr(pv.moves)), gof, gn))
+//@ define pvShape(pv, from) = all(q, 0, 63, implies(q >= int(from), 0 <= pv.depth[q] && int(pv.depth[q]) <= 63 - q))
+//@
+//@ func (*pv).insert
+//@   props C07
+//@   requires 0 <= ply && ply < 63 && 0 <= pv.depth[ply+1] && int(pv.depth[ply+1]) <= 62 - int(ply)
+//@   ensures [head]   pv.moves[rowAt(ply)] == m && pv.depth[ply] == old(pv.depth[ply+1]) + 1
+//@   ensures [tail]   forall(k, 0, int(old(pv.depth[ply+1])), pv.moves[rowAt(ply) + 1 + k] == old(pv.moves[rowAt(ply+1) + k]))
+//@   ensures [frame]  forall(x, 0, 2080, implies(x < rowAt(ply) || x > rowAt(ply) + int(old(pv.depth[ply+1])), pv.moves[x] == old(pv.moves[x])))
+//@   ensures [depths] all(q, 0, 63, implies(q != int(ply), pv.depth[q] == old(pv.depth[q])))
+//@   # in any state gs where m is accepted and the child's row is a valid line after m, the new row is a valid line
+//@   ensures [cons]   implies(accS(gs, uint16(m)) && lineS(mkS(gs, uint16(m)), old(arr(pv.moves)), rowAt(ply+1), int(old(pv.depth[ply+1]))), lineS(gs, arr(pv.moves), rowAt(ply), int(pv.depth[ply])))
+//@   ensures [keeps]  keepsBelow(pv, rowAt(ply))
+//@   use lineInsert(gs, uint16(m), old(arr(pv.moves)), arr(pv.moves), rowAt(ply), rowAt(ply+1), int(old(pv.depth[ply+1]))) at exit
+//@   use lineSeg(gs, arr(pv.moves), gof, old(arr(pv.moves)), gof, gn) at exit
+//@   modifies pv.moves, pv.depth
+//@   nopanic
+//@
+//@ func (*pv).setNull
+//@   props C07
+//@   requires 0 <= ply && ply < 64
+//@   ensures [null]   pv.depth[ply] == 0 && all(q, 0, 63, implies(q != int(ply), pv.depth[q] == old(pv.depth[q])))
+//@   modifies pv.depth
+//@   nopanic
+//@
+//@ # putting an accepted move in front of a line that is valid after it gives a valid line
+//@ lemma lineInsert(s $BS, m $Mv, a $MvArr, a2 $MvArr, i int, j int, l int)
+//@   props C07
+//@   use lineCons(s, a2, i, l + 1)
+//@   use lineSeg(mkS(s, m), a2, i + 1, a, j, l)
+//@   hyp l >= 0 && l < 64 && accS(s, m) && lineS(mkS(s, m), a, j, l) && a2[i] == m && forall(k, 0, l, a2[i + 1 + k] == a[j + k])
+//@   concl lineS(s, a2, i, l + 1)
+//@
+//@ # quiescence never touches the PV buffer and restores the (abstract) board (proved here, against the body)
+//@ func (*Search).quiescence view pv
+//@   props C07
+//@   views pv search
+//@   allow-extern fmt. time. os. strings. io.
+//@   requires searchInv(s)
+//@   ensures [board]   gbs == old(gbs)
+//@   ensures [stacks]  s.hstack.sp == old(s.hstack.sp) && len(s.ms.frames) == old(len(s.ms.frames))
+//@   modifies b.*, gbs, s.aborted, s.hstack.*, s.ms.*, s.tt.data.*, opts.Counters.*
+//@   loop 1: invariant gbs == old(gbs) && s.hstack.sp == old(s.hstack.sp) && len(s.ms.frames) == old(len(s.ms.frames)) + 1
+//@   loop 1: modifies b.*, gbs, s.aborted, s.hstack.*, s.ms.allocIx, s.ms.data.*, s.tt.data.*, opts.Counters.*
+//@
+//@ # row `ply` of the buffer is a line accepted move by move from the current position; rows above it
+//@ # (plies < ply) are not touched
+//@ define rowOK(s, ply) = lineS(gbs, arr(s.pv.moves), rowAt(ply), int(s.pv.depth[ply]))
+//@ define rowLen(s, ply) = 0 <= s.pv.depth[ply] && int(s.pv.depth[ply]) <= 63 - int(ply)
+//@ define rowsAbove(s, ply) = all(q, 0, 63, implies(q < int(ply), s.pv.depth[q] == old(s.pv.depth[q])))
+//@
+//@ func (*Search).alphaBeta view pv
+//@   props C07
+//@   views pv search
+//@   allow-extern fmt. time. os. strings. io.
+//@   requires searchInv(s) && 0 <= ply && ply <= 63
+//@   ensures [line]    rowOK(s, ply)
+//@   ensures [len]     rowLen(s, ply)
+//@   ensures [above]   rowsAbove(s, ply)
+//@   ensures [keeps]   keepsBelow(s.pv, rowAt(ply))
+//@   ensures [board]   gbs == old(gbs)
+//@   ensures [stacks]  s.hstack.sp == old(s.hstack.sp) && len(s.ms.frames) == old(len(s.ms.frames))
+//@   instances gs, gof, gn: old(gbs), rowAt(ply), int(s.pv.depth[ply])
+//@   modifies b.*, gbs, s.aborted, s.hstack.*, s.pv.*, s.ms.*, s.tt.data.*, s.ranker.history.*, s.ranker.captHist.*, s.ranker.continuations[0].*, s.ranker.continuations[1].*, opts.Counters.*
+//@   timeout 300
+//@   # cuts at the point where the searched move is taken back: the child's row is a valid line after the
+//@   # move whenever the move's value beat alpha, and the node's own row is still a valid line
+//@   at-call UndoMove@2 requires [childRow] implies(value > alpha, lineS(gbs, arr(s.pv.moves), rowAt(ply+1), int(s.pv.depth[ply+1])) && 0 <= s.pv.depth[ply+1] && int(s.pv.depth[ply+1]) <= 62 - int(ply))
+//@   at-call UndoMove@2 requires [ownRow]   lineS(old(gbs), arr(s.pv.moves), rowAt(ply), int(s.pv.depth[ply])) && rowLen(s, ply)
+//@   use lineNil(gbs, arr(s.pv.moves), rowAt(ply)) at exit
+//@   use lineNil(gbs, arr(s.pv.moves), rowAt(ply)) at loop1
+//@   loop 1: invariant gbs == old(gbs) && s.hstack.sp == old(s.hstack.sp) && len(s.ms.frames) == old(len(s.ms.frames)) + 1
+//@   loop 1: invariant rowLen(s, ply) && rowsAbove(s, ply)
+//@   loop 1: invariant keepsBelow(s.pv, rowAt(ply))
+//@   loop 1: invariant rowOK(s, ply)
+//@   loop 1: modifies b.*, gbs, s.aborted, s.hstack.*, s.pv.*, s.ms.allocIx, s.ms.data.*, s.tt.data.*, s.ranker.history.*, s.ranker.captHist.*, s.ranker.continuations[0].*, s.ranker.continuations[1].*, opts.Counters.*, pck.*
+//@
+//@ # for the board / stack / budget clauses (C06, C08) the PV buffer operations are frame-only
+//@ func (*pv).insert view pvframe
+//@   trusted frame only (writes the PV buffer; proved in the main contract)
+//@   modifies pv.moves, pv.depth
+//@
+//@ func (*pv).setNull view pvframe
+//@   trusted frame only (writes the PV buffer; proved in the main contract)
+//@   modifies pv.depth
